@@ -137,7 +137,9 @@ func (k *KerberosProxy) forward(realm string, data []byte) (resp []byte, err err
 	replies := make(chan []byte, len(kdcs))
 	pending := 0
 	for i := range kdcs {
-		conn, err := net.Dial(kdcs[i].Proto, kdcs[i].Host)
+		// a KDC that does not answer connection attempts must not hold the request
+		// for as long as the operating system keeps trying
+		conn, err := net.DialTimeout(kdcs[i].Proto, kdcs[i].Host, timeout)
 
 		if err != nil {
 			log.Printf("error connecting to %s due to %s, trying next if available", kdcs[i], err)
